@@ -5,7 +5,7 @@ from checks.common import CheckResult, VERIF, replay_header, standard_flow
 
 FILES = [os.path.join(VERIF, "contracts", "result.py")]
 R = "hugr.qsystem.result."
-TARGETS = [R + "_cast_primitive_bit", R + "QsysShot.to_register_bits", R + "QsysShot.collate_tags"]
+TARGETS = [R + "_cast_primitive_bit", R + "QsysShot.to_register_bits", R + "QsysShot.collate_tags", R + "QsysResult.register_bitstrings", R + "QsysResult.register_counts"]
 
 
 def _val(x):
@@ -28,7 +28,21 @@ def outcome(f):
     except ValueError:
         return ("ValueError", None)
 """
-    if fr["target"].endswith("_cast_primitive_bit"):
+    if fr["target"].endswith(("register_bitstrings", "register_counts")):
+        try:
+            shots = [[(_val(t), _val(v)) for (t, v) in sh["fields"]["entries"]] for sh in inp["self"]["fields"]["results"]]
+        except (KeyError, TypeError):
+            return None
+        sn, sl = bool(inp.get("strict_names")), bool(inp.get("strict_lengths"))
+        body += "from hugr.qsystem.result import QsysResult\nfrom collections import Counter\n"
+        body += f"shots = {shots!r}\nsn, sl = {sn!r}, {sl!r}\n"
+        if fr["target"].endswith("register_counts"):
+            body += ("got = outcome(lambda: QsysResult(shots).register_counts(strict_names=sn, strict_lengths=sl))\n"
+                     "exp = outcome(lambda: {r: Counter(v) for r, v in S.register_bitstrings(shots, strict_names=sn, strict_lengths=sl).items()})\n")
+        else:
+            body += ("got = outcome(lambda: QsysResult(shots).register_bitstrings(strict_names=sn, strict_lengths=sl))\n"
+                     "exp = outcome(lambda: S.register_bitstrings(shots, strict_names=sn, strict_lengths=sl))\n")
+    elif fr["target"].endswith("_cast_primitive_bit"):
         v = _val(inp["data"])
         body += f"v = {v!r}\ngot = outcome(lambda: _cast_primitive_bit(v)); exp = outcome(lambda: S.bit(v))\n"
     elif "self" in inp and "fields" in inp["self"] and "entries" in inp["self"]["fields"]:
@@ -53,10 +67,20 @@ def run(tier, seed):
         "ghost functions replay / collate are defined by primitive recursion on the number of entries; their defining equations are assumed only as instances at the loop cursor (A_* clauses)",
         "every solver verdict cross-checked by a second solver (z3 4.8.12 or cvc5)",
     ]
-    res.assumptions = ["entries inhabit list[tuple[str, DataValue]]; floats are an abstract sort (never bits)"]
+    res.trusted_base += [
+        "ghost shots_with_register(shots, i) (per register, the indices < i of the shots that write it) defined by primitive recursion on i; its defining equation is assumed only as an instance at the loop cursor (A_si_* clauses)",
+        "opaque predicates rendered(s, bits) / shot_accepted(entries): uninterpreted in the multi-shot proofs, unfolded to their definitions (renders, shot_ok) only at the return point of to_register_bits and at the loop cursor (D_* clauses)",
+        "iteration over dict.items(): keys in some duplicate-free order covering the domain; ghost set of processed keys with only its consequences assumed (subset of the domain, excludes the current key, the whole domain at exit)",
+        "collections.Counter: uninterpreted function of the list (assumed library function); the dictionary returned by register_bitstrings is named by a ghost function of (shots, flags) for register_counts (A_named) - consistent because none of these functions writes the heap (frame proved)",
+        "strict options: 'register sets / lengths differ' is formalised as 'some shot differs from the registers of the shots before it / from the length in the first shot that wrote the register', which is equivalent to 'not all equal' (argument on paper, stated in contracts/result.py)",
+    ]
+    res.assumptions = ["entries inhabit list[tuple[str, DataValue]]; floats are an abstract sort (never bits)",
+                       "results inhabits list[QsysShot]; the shots' entry lists are not aliased with anything the functions write (they write nothing: modifies = [])"]
     standard_flow(res, FILES, TARGETS, concretize, bounded_modules=[("bounded.c19", 300, 1500)])
     res.level = "other"
-    res.explanation = ("Proved deductively for all shots: _cast_primitive_bit, QsysShot.to_register_bits (= replay of the entries in order; every character 0/1; "
-                       "ValueError exactly when some entry's value is not a bit / list of bits) and collate_tags. The multi-shot functions (register_bitstrings, register_counts, "
-                       "strict options, collated_counts, _flatten) are covered by the bounded exhaustive small-scope run against the statement's oracle only - not counted as proved.")
+    res.explanation = ("Proved deductively for all inputs: _cast_primitive_bit, QsysShot.to_register_bits (= replay of the entries in order; every character 0/1; "
+                       "ValueError exactly when some entry's value is not a bit / list of bits), collate_tags, QsysResult.register_bitstrings (one list per register holding, in shot order, the string of "
+                       "every shot that writes the register; ValueError exactly when a shot is rejected or a strict option is set and register sets / lengths differ) and register_counts (the counters of "
+                       "exactly those lists, same rejections). collated_counts / _flatten / _flat_bitstring (recursive generators) and to_pytket are covered by the bounded exhaustive small-scope run "
+                       "against the statement's oracle only - not counted as proved, hence category other.")
     return res.finish()
